@@ -80,7 +80,7 @@ def gen_cases(ctx, quick):
     for d in docs:
         for _ in range(2 if quick else 16):
             cases.append((cc.x2w_line(d, **opts()), "corpus", d))
-    for _ in range(3000 if quick else 150000):
+    for _ in range(3000 if quick else 30000):
         d = rng.choice(docs)
         for _ in range(rng.range(1, 3)):
             d = cc.xml_mutate(rng, d)
@@ -90,12 +90,12 @@ def gen_cases(ctx, quick):
         step = max(1, len(d) // (150 if quick else 2000))
         for k in range(0, len(d), step):
             cases.append((cc.x2w_line(d[:k], **opts()), "prefix", d[:k]))
-    for _ in range(500 if quick else 20000):
+    for _ in range(500 if quick else 8000):
         d = rng.bytes(rng.range(0, 80)) if rng.chance(1, 2) else b"<" + bytes(rng.choice(b"abc<>/&;\"'= !-[]?xml") for _ in range(rng.range(0, 80)))
         cases.append((cc.x2w_line(d, **opts()), "random", d))
     # string-table stress: texts and attribute values from a small vocabulary, repeated whole and as words inside longer strings
     vocab = [b"hello", b"world", b"there", b"string", b"table", b"entry", b"wxyz", b"abc", b"alpha beta", b"  padded  "]
-    for _ in range(300 if quick else 20000):
+    for _ in range(300 if quick else 6000):
         ps = []
         for _ in range(rng.range(2, 12)):
             t = b" ".join(rng.choice(vocab) for _ in range(rng.range(1, 3)))
@@ -157,7 +157,7 @@ def run(ctx):
     hs = set(heavy)
     light = [i for i in range(len(cases)) if i not in hs]
     answers = [None] * len(cases)
-    la, lcr = common.run_lines(harness, [lines[i] for i in light], timeout=900)
+    la, lcr = common.run_lines(harness, [lines[i] for i in light], timeout=(900 if quick else 3000))
     for i, a in zip(light, la):
         answers[i] = a
     ha, hcr = common.run_lines(harness, [lines[i] for i in heavy], shards=max(1, len(heavy)), timeout=300)
